@@ -297,6 +297,17 @@ def inline_single_sets(N, ast) -> int:
         for n in nodes:
             if isinstance(n, N.Assign) and isinstance(n.target, N.Name) and n.target.name in mapping:
                 continue
+        # an iterable obtained once and walked several times (`{% set o = options.items() %}` used by two loops): inlining it is the same
+        # thing only if the method hands out a re-iterable view - recorded, so that the rule that relies on the iteration can ask for that
+        for name, e in mapping.items():
+            if any(isinstance(x, N.Call) and isinstance(x.node, N.Getattr) and x.node.attr in ("items", "keys", "values") for x in [e] + list(e.find_all(N.Call))):
+                uses = sum(1 for x in m.find_all(N.Name) if x.name == name and x.ctx == "load")
+                if uses >= 2:
+                    rec = getattr(ast, "nvsa_shared_iterables", None)
+                    if rec is None:
+                        rec = []
+                        ast.nvsa_shared_iterables = rec
+                    rec.append((name, xs(e), uses, getattr(bound[name], "lineno", None)))
         _replace_names(N, m, mapping)
         # the defining statements keep their (now unused) right-hand sides
         total += len(mapping)
